@@ -88,6 +88,13 @@ func hostC20Close(o *out, replay string) {
 	}
 	o.emit(caseLine, impl, pred)
 	o.flush()
+	// a multiplexing plugin that dies right after its handshake line while several goroutines connect
+	caseLine = "!C20.mux-connect-fails goroutines=4"
+	o.note("%s%s", c20CloseMarker, caseLine)
+	o.flush()
+	impl, pred = runMuxConnectFails()
+	o.emit(caseLine, impl, pred)
+	o.flush()
 }
 
 func c20CloseMode(o *out, seed uint64, mux bool, r *rng) {
